@@ -54,7 +54,7 @@ def _width_req(a):
     xs = a.self.chunks
     # every run has a computable width (the quantifier of C10: characters with wcwidth >= 0) and Chunk.width does not raise
     return [lambda i: Implies(And(i >= 0, i < z3.Length(xs)),
-                              Or(z3.Length(T.ChunkS.s(xs[i])) == 0, T.WCS(T.ChunkS.s(xs[i])) >= 1))]
+                              Or(z3.Length(T.ChunkS.s(xs[i])) == 0, T.WCS(T.ChunkS.s(xs[i])) >= 0))]
 
 
 width_memo = _memo_contract("width", "_width", lambda xs: T.TOTW(xs), "property", IntT(),
